@@ -1,6 +1,7 @@
 import GodiProofs.Props.C06
 import GodiProofs.Props.C05
 import GodiProofs.Graph.Remove
+import GodiProofs.Graph.AddRollback
 /-!
 # C19 — The dependency graph always agrees with a plain digraph model
 
@@ -10,11 +11,11 @@ fields agree with the adjacency lists) is re-established by every operation that
 `updateDegrees`, for every iteration order of the `edges` map. Under `Base ∧ Synced` every query
 equals the plain digraph's answer.
 
-Proved here: deferred add (+ the documented `DetectCycles`), `RemoveProvider`, `Clear`, all queries,
-cache freshness of the sort. The refinement of the *immediate* `AddProvider` (including "a rejected add
-leaves the graph exactly as it was") is stated (`addProvider_refines_statement`) and covered by the
-exhaustive correspondence stream (every op sequence of length ≤ 3 over 3 identities, all queries after
-every step) — `_partial`.
+Proved here: the immediate `AddProvider` (accepted: the digraph update; rejected: the graph is the
+digraph it was; accepted exactly when the updated digraph is acyclic), the deferred add (+ the documented
+`DetectCycles`), `RemoveProvider`, `Clear`, all queries, cache freshness of the sort. The exhaustive
+correspondence stream (every op sequence of length ≤ 3 over 3 identities, all queries after every
+step) ties these definitions to graph.go on every run.
 -/
 namespace Godi.Props.C19
 open Godi.Kahn (Key)
@@ -143,14 +144,46 @@ theorem sort_cache_fresh (g : Graph) (b : Base g) (s : Synced g) (norder : List 
     simp
   next => cases h
 
-/-! ### the part that is only validated by the exhaustive correspondence stream -/
+/-! ### the immediate `AddProvider` -/
 
-def addProvider_refines_statement : Prop :=
-  ∀ (g : Graph) (k : Key) (p : Nat) (ds : List Key), Base g → Synced g →
-    let r := addProvider g k p ds
-    Base r.1 ∧ Synced r.1 ∧
-    (r.2 = .ok → r.1.edges = upd g.edges k ds ∧ ∀ x, x ∈ r.1.nodes ↔ x ∈ g.nodes ∨ x = k ∨ x ∈ ds) ∧
-    (r.2 ≠ .ok → r.1.edges = g.edges ∧ ∀ x, x ∈ r.1.nodes ↔ x ∈ g.nodes)
+/-- ACCEPTED ADD refines "replace `k`'s adjacency list, create missing nodes" -/
+theorem add_accepted_refines (g : Graph) (b : Base g) (k : Key) (p : Nat) (ds : List Key)
+    (h : (addProvider g k p ds).2 = .ok) :
+    Base (addProvider g k p ds).1 ∧ Synced (addProvider g k p ds).1 ∧
+    (addProvider g k p ds).1.edges = upd g.edges k ds ∧
+    (∀ x, x ∈ (addProvider g k p ds).1.nodes ↔ x ∈ g.nodes ∨ x = k ∨ x ∈ ds) :=
+  addProvider_accepted g b k p ds h
+
+/-- REJECTED ADD leaves the digraph as it was (same node set, same adjacency function), with the
+invariant and all derived fields in sync -/
+theorem add_rejected_unchanged (g : Graph) (b : Base g) (k : Key) (p : Nat) (ds : List Key)
+    (h : (addProvider g k p ds).2 ≠ .ok) :
+    Base (addProvider g k p ds).1 ∧ Synced (addProvider g k p ds).1 ∧
+    (addProvider g k p ds).1.edges = g.edges ∧
+    (∀ x, x ∈ (addProvider g k p ds).1.nodes ↔ x ∈ g.nodes) :=
+  addProvider_rejected g b k p ds h
+
+/-- DECISION: on an acyclic graph the add is accepted exactly when the updated digraph is acyclic -/
+theorem add_accepts_iff_acyclic (g : Graph) (b : Base g) (k : Key) (p : Nat) (ds : List Key)
+    (hacyc : ∀ c, ¬ Reach g.edges c c) :
+    (addProvider g k p ds).2 = .ok ↔ ∀ c, ¬ Reach (upd g.edges k ds) c c :=
+  addProvider_ok_iff g b k p ds hacyc
+
+/-- every reachable state of the mutation API satisfies `Base ∧ Synced`; a graph grown by immediate
+adds and removes only is acyclic throughout -/
+theorem add_preserves (g : Graph) (b : Base g) (k : Key) (p : Nat) (ds : List Key) :
+    Base (addProvider g k p ds).1 ∧ Synced (addProvider g k p ds).1 := by
+  by_cases h : (addProvider g k p ds).2 = .ok
+  · exact ⟨(addProvider_accepted g b k p ds h).1, (addProvider_accepted g b k p ds h).2.1⟩
+  · exact ⟨(addProvider_rejected g b k p ds h).1, (addProvider_rejected g b k p ds h).2.1⟩
+
+theorem add_keeps_acyclic (g : Graph) (b : Base g) (k : Key) (p : Nat) (ds : List Key)
+    (hacyc : ∀ c, ¬ Reach g.edges c c) : ∀ c, ¬ Reach (addProvider g k p ds).1.edges c c := by
+  by_cases h : (addProvider g k p ds).2 = .ok
+  · rw [(addProvider_accepted g b k p ds h).2.2.1]
+    exact (addProvider_ok_iff g b k p ds hacyc).1 h
+  · rw [(addProvider_rejected g b k p ds h).2.2.1]
+    exact hacyc
 
 /-- REMOVE refines "delete the node and every edge pointing at it" (and is a no-op for an unknown
 node): afterwards the invariant holds, every derived field is in sync, the node is gone, every
@@ -161,10 +194,30 @@ theorem remove_refines (g : Graph) (b : Base g) (k : Key) (hk : k ∈ g.nodes) :
     (∀ x, (removeProvider g k).edges x = if x = k then [] else (g.edges x).filter (· ≠ k)) :=
   removeProvider_refines g b k hk
 
+/-- removing a provider never creates a cycle -/
+theorem remove_keeps_acyclic (g : Graph) (b : Base g) (k : Key)
+    (hacyc : ∀ c, ¬ Reach g.edges c c) : ∀ c, ¬ Reach (removeProvider g k).edges c c := by
+  by_cases hk : k ∈ g.nodes
+  · have he := (removeProvider_refines g b k hk).2.2.2
+    have sub : ∀ a c, Reach (removeProvider g k).edges a c → Reach g.edges a c := by
+      intro a c h
+      have hsub : ∀ x y, y ∈ (removeProvider g k).edges x → y ∈ g.edges x := by
+        intro x y hy
+        rw [he x] at hy
+        split at hy
+        · simp at hy
+        · exact (List.mem_filter.1 hy).1
+      induction h with
+      | single h => exact .single (hsub _ _ h)
+      | cons h _ ih => exact .cons (hsub _ _ h) ih
+    intro c hc; exact hacyc c (sub c c hc)
+  · have : removeProvider g k = g := by unfold removeProvider; simp [hk]
+    rw [this]; exact hacyc
+
 theorem remove_unknown_noop (g : Graph) (k : Key) (hk : k ∉ g.nodes) : removeProvider g k = g := by
   unfold removeProvider; simp [hk]
 
-/-- the rejected add of the statement above, on the D14 witness: node 1 exists as a placeholder
+/-- non-vacuity of `add_rejected_unchanged`, on the D14 witness: node 1 exists as a placeholder
 (2 depends on it); adding 1 → 2 closes a cycle, is rejected, and the graph is as before -/
 example : let g := (addProvider {} 2 20 [1]).1
     let r := addProvider g 1 10 [2]
